@@ -84,6 +84,8 @@ func init() {
 		ergoPath + ".zzHavoc":   mHavoc,
 		ergoPath + ".zzBytes":   mNondetBytes,
 		ergoPath + ".zzNote":    func(ex *Exec, c *callCtx) Value { return nil },
+		ergoPath + ".zzItoa":    func(ex *Exec, c *callCtx) Value { return StrLit("") },
+		ergoPath + ".zzBtoa":    func(ex *Exec, c *callCtx) Value { return StrLit("") },
 		ergoPath + ".zzErrText": func(ex *Exec, c *callCtx) Value { return StrLit("") },
 		ergoPath + ".zzPinRand": func(ex *Exec, c *callCtx) Value { return nil },
 		ergoPath + ".zzReplayFrom": mReplayFrom,
